@@ -19,7 +19,10 @@ pub struct Object {
 
 type Key = crate::model::KString;
 
+#[cfg(not(feature = "verif-hooks"))]
 type MapImpl<K, V> = hash_map::HashMap<K, V>;
+#[cfg(feature = "verif-hooks")]
+type MapImpl<K, V> = hash_map::HashMap<K, V, crate::verif::SimHashState>;
 type VacantEntryImpl<'a> = hash_map::VacantEntry<'a, Key, Value>;
 type OccupiedEntryImpl<'a> = hash_map::OccupiedEntry<'a, Key, Value>;
 type IterImpl<'a> = hash_map::Iter<'a, Key, Value>;
@@ -34,7 +37,10 @@ impl Object {
     #[inline]
     pub fn new() -> Self {
         Object {
+            #[cfg(not(feature = "verif-hooks"))]
             map: MapImpl::new(),
+            #[cfg(feature = "verif-hooks")]
+            map: MapImpl::default(),
         }
     }
 
